@@ -683,7 +683,7 @@ pub fn owned_prefixes(prop: &str) -> &'static [&'static str] {
         "C10" => &["close/", "hang/"],
         "C11" => &["disc/", "hang/", "ledger/lost", "ledger/double-drop", "ledger/leak", "ledger/failed-send-delivered"],
         "C12" => &["count/"],
-        "C13" => &["time/", "ledger/leak", "ledger/double-drop", "ledger/option", "ledger/failed-send-delivered", "life/", "hang/"],
+        "C13" => &["panic/undocumented", "time/", "ledger/leak", "ledger/double-drop", "ledger/option", "ledger/failed-send-delivered", "life/", "hang/"],
         "C14" => &["nonblock/", "ledger/failed-send-delivered", "ledger/lost", "ledger/option", "explain/none"],
         "C15" => &["ledger/", "life/", "order/", "hang/"],
         "C16" => &["poll/", "stream/", "hang/", "ledger/dup-receive", "ledger/invented", "ledger/lost", "order/", "panic/undocumented"],
